@@ -27,7 +27,8 @@ fn u16be(l: &[u16]) -> String {
 }
 
 /// one random history on `m` (mutated along to stay consistent); returns the edit tokens
-fn gen_history(rng: &mut Rng, m: &mut GModel, thorough: bool) -> Vec<String> {
+fn gen_history(rng: &mut Rng, m: &mut GModel, huge: bool) -> Vec<String> {
+    let mut huge = huge;
     let mut toks = Vec::new();
     let has_shape_tables = !m.shm.is_empty() || !m.shv.is_empty();
     let mut shapes_removed = false;
@@ -69,8 +70,10 @@ fn gen_history(rng: &mut Rng, m: &mut GModel, thorough: bool) -> Vec<String> {
                 2..=8 => rng.range(2, 60),
                 9 | 10 => rng.range(60, 400),
                 _ => {
-                    if thorough {
-                        *rng.pick(&[65535u64, 65534, 40000, 4096])
+                    if huge {
+                        // the u16 vertex-count boundary: once per selected history
+                        huge = false;
+                        *rng.pick(&[65535u64, 65534, 40000])
                     } else {
                         rng.range(400, 1500)
                     }
@@ -169,7 +172,7 @@ pub fn generate(thorough: bool, seed: u64, out: &mut dyn Write) {
     if let Ok(b) = std::fs::read(sample_path()) {
         writeln!(out, "rawwrite {}", hex(&b)).unwrap();
     }
-    let n = if thorough { 5000 } else { 140 };
+    let n = if thorough { 4000 } else { 140 };
     for i in 0..n {
         let o = GenOpts {
             max_meshes: if i % 5 == 0 { 4 } else { 2 },
@@ -186,7 +189,7 @@ pub fn generate(thorough: bool, seed: u64, out: &mut dyn Write) {
                 writeln!(out, "wbytes {} |", base).unwrap();
             }
         } else {
-            let toks = gen_history(&mut rng, &mut m, thorough);
+            let toks = gen_history(&mut rng, &mut m, thorough && i % 400 == 7);
             writeln!(out, "edit {} | {}", base, toks.join(" ")).unwrap();
             if i % 10 == 1 {
                 writeln!(out, "wbytes {} | {}", base, toks.join(" ")).unwrap();
